@@ -7,17 +7,35 @@ From FV Require Import Base.Bytes Gen.Generated Parser.ReqModel Parser.ReqTarget
 
 (* ==== pinned from the proof files (tools/write_props.py) ==== *)
 
-(* the only way the task can be suspended without a pending wake-up is a transport read that a GATED client
-   does not satisfy: never a panic, a spin, or a wait on anything else *)
-Theorem C08_only_waits_for_client :
+(* layer (i), every transport (write faults included) and every well-formed handler: the task ends by returning
+   or suspended without a pending wake-up — never a panic, never a spin.  What it is suspended on is a
+   transport read that a gated client does not satisfy or (known findings F5/F6, refuted form:
+   C12_terminates_unrestricted_refuted) a StreamWriter op waiting for the request's own output lock *)
+Theorem C08_never_panics_or_spins :
   forall (norm : bytes -> bytes) (maxc : N) (scripts : list (list N)) (B : N) (w0 : world),
   world_ok w0 ->
   scripts_ok true scripts ->
   B < SIZE_LIMIT - 8 ->
   exists w : world,
     run_loop norm maxc (nb w0 + 4) (new_parser B) scripts 0 w0 = (ORet, w) \/
-    run_loop norm maxc (nb w0 + 4) (new_parser B) scripts 0 w0 = (ODeadlock, w) /\ ~ ungated w0.
+    run_loop norm maxc (nb w0 + 4) (new_parser B) scripts 0 w0 = (ODeadlock, w).
 Proof. exact run_loop_total. Qed.
+
+(* layer (ii-a): on a transport without write faults, with handlers that await the reads they start (no
+   abandoned poll, op 11), Request.lock is free between handler ops, and the only way the task can be suspended
+   without a pending wake-up is a transport read that a GATED client does not satisfy: never a panic, a spin,
+   or a wait on anything else *)
+Theorem C08_only_waits_for_client :
+  forall (norm : bytes -> bytes) (maxc : N) (scripts : list (list N)) (B : N) (w0 : world),
+  world_ok w0 ->
+  scripts_ok true scripts ->
+  Forall no_abandoned_read scripts ->
+  no_fault (wscript w0) ->
+  B < SIZE_LIMIT - 8 ->
+  exists w : world,
+    run_loop norm maxc (nb w0 + 4) (new_parser B) scripts 0 w0 = (ORet, w) \/
+    run_loop norm maxc (nb w0 + 4) (new_parser B) scripts 0 w0 = (ODeadlock, w) /\ ~ ungated w0.
+Proof. exact run_loop_waits_fault_free. Qed.
 
 (* inside a handler's read (poll_input): a suspension without wake-up happens only with NOTHING OWED: the
    parser's output buffer is empty, everything it produced is in the transport's log (wlog w' = wlog w ++
@@ -199,11 +217,11 @@ Theorem C08_parse_request_block_counts :
 Proof. exact parse_request_block_counts. Qed.
 
 (* MAIN, whole connection: on a fault-free transport, for EVERY buffer size, every list of well-formed handler
-   scripts that await the reads they start (reading, buffered reading, stream switching, writing, early return, own
-   status, failing; NOT the read polled once and dropped of op 11: see C08_abandoned_read_counterexample), every
-   read/write readiness pattern and every client whose segments are whole records and whose gates ask only for
-   management replies owed for records of EARLIER segments (pipelining allowed), the connection task RETURNS:
-   server and peer never wait for each other *)
+   scripts that await the reads they start (reading, buffered reading, stream switching, writing, early return,
+   own status, failing; NOT the read polled once and dropped of op 11: see C08_abandoned_read_counterexample),
+   every read/write readiness pattern and every client whose segments are whole records and whose gates ask
+   only for management replies owed for records of EARLIER segments (pipelining allowed), the connection task
+   RETURNS: server and peer never wait for each other *)
 Theorem C08_peer_never_deadlocks :
   forall (norm : bytes -> bytes) (maxc : N) (scripts : list (list N)) (B : N)
     (sg : list (N * N * list ReqWire.rcd)) (w0 : world),
@@ -255,9 +273,10 @@ Example C08_client_example : forall norm maxc,
   fst (run_loop norm maxc (nb (ex3_w 1) + 4) (new_parser 64) ex3_scripts 0 (ex3_w 1)) = ORet.
 Proof. exact ex3_never_deadlocks. Qed.
 
-(* the hypothesis no_abandoned_read of the two MAIN theorems cannot be dropped: a well-formed script with op 11 (a read
-   polled once and dropped while Request::poll_output has written only part of a management reply) followed by a
-   StreamWriter write, every other hypothesis satisfied: the run ends in the wait-for cycle; with the read awaited it
+(* the hypothesis no_abandoned_read of C08_only_waits_for_client and of the two MAIN theorems cannot be dropped (known finding
+   F6): a well-formed script with op 11 (a read polled once and dropped while Request::poll_output has written only part of a
+   management reply and holds Request.lock) followed by a StreamWriter write, every other hypothesis satisfied: the writer
+   waits for the lock, the client for the rest of the reply — the run ends in the wait-for cycle; with the read awaited it
    returns.  Instances: Async/PeerProofs2.v (ex2p_hyps ...), Async/PeerProofs3.v (ex3p_hyps ...) *)
 Example C08_abandoned_read_counterexample :
   (scripts_ok true (ex2p_scripts 11) /\ ~ Forall no_abandoned_read (ex2p_scripts 11) /\
